@@ -63,6 +63,9 @@ func sendEthernet(iface net.Interface, resp *dhcpv4.DHCPv4) error {
 		return fmt.Errorf("Cannot serialize layer: %v", err)
 	}
 	data := buf.Bytes()
+	if verifFrameSink(iface, data) {
+		return nil
+	}
 
 	fd, err := syscall.Socket(syscall.AF_PACKET, syscall.SOCK_RAW, 0)
 	if err != nil {
